@@ -5,6 +5,7 @@ import (
 	"context"
 	"fmt"
 	"os"
+	"runtime"
 	"sort"
 	"strings"
 	"sync"
@@ -205,6 +206,11 @@ func replicaSetChanges(rec *mon.Recorder, c int) {
 			r["views"] = fmt.Sprint(views)
 			rec.Violation("catalogue:replica-assignment-differs-across-members:"+phase, fmt.Sprintf("%s: %s the members do not agree on the replica assignment although their catalogue logs are at rest: %v", desc, phase, views), r)
 			return false
+		}
+		if p := os.Getenv("VERIF_DUMP"); p != "" {
+			buf := make([]byte, 32<<20)
+			buf = buf[:runtime.Stack(buf, true)]
+			os.WriteFile(p, buf, 0o644)
 		}
 		rec.Inconclusive(fmt.Sprintf("%s: %s the expected replica assignment was not reached within the watchdog (the allocator's change may have been lost): %v", desc, phase, last))
 		return false
